@@ -1244,13 +1244,9 @@ def evaluate(ctx, program, init, steps, second, answers, laters):
         viols.append({'sig': f'C09:isolation:{what}-changes-{"+".join(okind)}',
                       'what': f'operation {i} ({json.dumps(op)[:300]}) changed the dump of {owners}', 'case': program,
                       'detail': {'step': i, 'owners': owners}})
-    for st in steps:
-        for g in st['part']:
-            owners = {x.rsplit(':', 1)[0] for x in g if '/prop/' in x}
-            if len(owners) > 1 and any(o.startswith('inst:') for o in owners):
-                viols.append({'sig': 'C09:mutable-property-value-shared-with-instance', 'what': f'a mutable property value object is '
-                              f'shared between owners: {g}', 'case': program})
-                break
+    # a mutable property value (a list given as bare value / `value` / `default` of a parameter without a converting datatype)
+    # shared between a class and its instances is latent aliasing, but no operation of the statement writes into such a list:
+    # it is counted in the evidence (run), never judged here - what an operation changes is decided by the monitors alone
     if not jwrite['ok']:
         bad = sorted({o + ':' + a for st in steps for o, d in st['after'].items() for a, x in d.get('acc', [])
                       if x.get('writes') is not None and x['writes'] != x['validates']})
@@ -1377,6 +1373,9 @@ def run(ctx):
                 res.count('mutate.%s%s.%s' % (st['op']['kind'], '.member' if st['op'].get('path') else '', st['outcome'].split(':')[0]))
             elif st['op']['op'] == 'inst' and any(k in MPROP_ROOT or k in MPROP_CUSTOM for k in st['op']['cfg']):
                 res.count('inst.cfg.module-property.' + st['outcome'].split(':')[0])
+        if any(len({x.rsplit(':', 1)[0] for x in g if '/prop/' in x}) > 1 and any(x.startswith('inst:') for x in g if '/prop/' in x)
+               for st in steps for g in st['part']):
+            res.count('latent.mutable-property-value-shared-between-class-and-instance')
         res.count('classes=%s' % min(ncls, 6))
         res.count('multi-inheritance' if multi else 'single-inheritance-only')
         if (multi or override) and ninst and ncls >= 2:
